@@ -13,7 +13,7 @@ REQUIRED = ["precession_equatorial", "precession_ecliptical", "precession_newcom
 THEOREMS = ["C06_equ_closed_form", "C06_equ_rotation", "C06_equ_identity", "C06_equ_isometry",
             "C06_rotation_facts", "C06_ecl_closed_form", "C06_ecl_rotation", "C06_ecl_identity",
             "C06_ecl_isometry", "C06_newcomb_closed_form", "C06_newcomb_rotation", "C06_newcomb_identity",
-            "C06_obliquity", "C06_p_motion_closed_form", "C06_motion_in_space_closed_form", "C06_orbital_closed_form"]
+            "C06_obliquity", "C06_p_motion_closed_form", "C06_motion_in_space_closed_form", "C06_orbital_closed_form", "C06_orbital_zero_branch"]
 PROOF_TIMEOUT = {"quick": 1500, "thorough": 3000}
 EXHAUSTIVE = False
 MANIFEST = {
@@ -23,7 +23,7 @@ MANIFEST = {
     "design_ref": "8/C06",
 }
 EXPLANATION = ("The model of the precession routines regenerated from /repo is evaluated symbolically over the reals for "
-               "arbitrary inputs; the result is proved equal to atan2/asin coordinates of Rz(z).Ry(-theta).Rz(zeta) "
+               "arbitrary inputs; the result is proved equal to the atan2 coordinates of Rz(z).Ry(-theta).Rz(zeta) "
                "(resp. Rz(p+Pi).Rx(-eta).Rz(-Pi)) applied to the start direction displaced by 100*mu*t, with zeta, z, theta, "
                "eta, Pi, p the published polynomials; hence rigid, invertible, identity at t = 0 at every declination.")
 CLAUSES = {
@@ -42,7 +42,7 @@ CLAUSES = {
     "equatorial route agrees with the ecliptical route through the mean obliquity of each epoch to 1e-4 deg":
         "unproved (searched): three separately fitted polynomial sets, agreement is numerical",
     "Newcomb within 0.005 deg of FK5 for 1800-2100": "unproved (searched): numerical closeness of two polynomial sets",
-    "orbital elements to another equinox and back": "exact closed form of the general branch proved [ideal, C06_orbital_closed_form, pins every constant]; the round trip itself unproved (searched, 1e-6 deg); refuted for inclinations > 90 deg and < 1 deg (known findings orbital-retrograde-inclination, orbital-small-inclination)",
+    "orbital elements to another equinox and back": "exact closed forms proved for every inclination, retrograde included, and for the zero-inclination branch [ideal, C06_orbital_closed_form, C06_orbital_zero_branch: pin every constant]; the round trip itself unproved (searched, inclinations 0..180 incl. tiny and retrograde, 1e-6 deg scaled by sin i)",
     "p_motion_equa2eclip, motion_in_space": "exact closed forms proved [ideal, C06_p_motion_closed_form, C06_motion_in_space_closed_form]; searched: finite-difference consistency with the coordinate conversion, zero-time identity, radial motion keeps the direction, vector form r0 + t*v",
     "binary64 rounding of all the above": "unproved (searched with the property's tolerances; correspondence is bit-exact with traced libm)",
 }
@@ -174,7 +174,7 @@ def search(rng, tier, deep):
     N = 6000 if full else 500
     for it in range(N):
         ra, dec = r_dir(rng)                       # equatorial clauses: every declination, poles included
-        lon0, lat0 = (ra, dec) if abs(dec) <= 89.999 else (ra, math.copysign(89.999, dec))
+        lon0, lat0 = ra, dec                       # ecliptical clauses too: latitude by atan2, poles included
         j0, j1 = r_jd(rng), r_jd(rng)              # within 5 centuries of J2000
         w0, w1 = r_jd(rng, 20.0), r_jd(rng, 20.0)  # wider, for the exact-rotation clauses
         e0, e1, f0, f1 = Epoch(j0), Epoch(j1), Epoch(w0), Epoch(w1)
@@ -191,7 +191,7 @@ def search(rng, tier, deep):
                 if not d <= idtol:
                     report(name + "-identity", "%s moves the direction by %.3g deg (zero interval, tolerance %g)" % (x, d, idtol), x, x)
             # rigid: angle between two stars unchanged (wide epoch range)
-            lo2, la2 = r_dir(rng, 90.0 if name != "ecl" else 89.999)
+            lo2, la2 = r_dir(rng)
             x1 = "%s(%s, %s, %s, %s)" % (fname, E(w0), E(w1), A(lo), A(la))
             x2 = "%s(%s, %s, %s, %s)" % (fname, E(w0), E(w1), A(lo2), A(la2))
             r1 = call(name, fn, x1, f0, f1, Angle(lo), Angle(la))
@@ -209,7 +209,7 @@ def search(rng, tier, deep):
             if rng.random() < 0.2: ma, md = rng.choice([(10 / 3600, 0.0), (0.0, -10 / 3600), (10 / 3600, 10 / 3600)])
             cen = 36524.2199 if name == "newcomb" else 36525.0
             t = (j1 - j0) / cen
-            la_s = la if abs(la + 100 * md * t) <= 89.999 or name != "ecl" else 0.5 * la
+            la_s = la
             xp = "%s(%s, %s, %s, %s, %s, %s)" % (fname, E(j0), E(j1), A(lo), A(la_s), A(ma), A(md))
             xq = "%s(%s, %s, %s, %s)" % (fname, E(j0), E(j1), A(lo + 100 * ma * t), A(la_s + 100 * md * t))
             p1 = call(name, fn, xp, e0, e1, Angle(lo), Angle(la_s), Angle(ma), Angle(md))
@@ -269,7 +269,9 @@ def search(rng, tier, deep):
                 report("newcomb-vs-fk5", "%s is %.3g deg (> 0.005) from %s" % (xn, d, xf), [xn, xf], "[%s, %s]" % (xn, xf))
         # orbital elements to another equinox and back
         r = rng.random()
-        i0 = rng.uniform(1.5, 89.5) if r < 0.7 else (rng.uniform(90.5, 178.5) if r < 0.85 else rng.uniform(0.001, 0.999))
+        i0 = (rng.uniform(1.0, 89.5) if r < 0.4 else rng.uniform(90.0, 179.0) if r < 0.65 else
+              rng.uniform(0.001, 1.0) if r < 0.8 else rng.uniform(179.0, 179.999) if r < 0.87 else
+              rng.choice([0.5, 1.0, 0.9999999, 1e-4, 1e-6, 90.0, 162.0, 179.9999, 0.0]))
         a0, o0 = rng.uniform(0, 360), rng.uniform(0, 360)
         xo = "orbital_equinox2equinox(%s, %s, %s, %s, %s)" % (E(j0), E(j1), A(i0), A(a0), A(o0))
         xo2 = "orbital_equinox2equinox(%s, %s, *%s)" % (E(j1), E(j0), xo)
@@ -277,11 +279,10 @@ def search(rng, tier, deep):
         if o is not None and abs(j1 - j0) > 1.0:
             ob = call("orbital", C.orbital_equinox2equinox, xo2, e1, e0, *o)
             if ob is not None:
-                si = max(math.sin(math.radians(i0)), 1e-3)
+                si = math.sin(math.radians(i0))     # node and argument are ill-defined as i -> 0, 180: compare arcs
                 di, da, do = dang(ob[0], i0), dang(ob[1], a0) * si, dang(ob[2], o0) * si
                 if not (di <= 1e-6 and da <= 1e-6 and do <= 1e-6):
-                    key = ("orbital-retrograde-inclination" if i0 > 90 else
-                           "orbital-small-inclination" if (i0 < 1.0 or abs(float(o[0])) < 1.0) else "orbital-roundtrip")
+                    key = "orbital-roundtrip"
                     report(key, "%s returns (%s, %s, %s), started from (%s, %s, %s)" % (xo2, fmt(ob[0]), fmt(ob[1]), fmt(ob[2]), fmt(i0), fmt(a0), fmt(o0)), xo2, xo2)
         # proper-motion conversion equatorial -> ecliptical: consistent with the coordinate conversion
         ra2, dec2 = rng.uniform(0, 360), rng.uniform(-70, 70)
@@ -344,8 +345,8 @@ def search(rng, tier, deep):
 
     stats = {"evaluations": stat["n"], "distinct_nontrivial": stat["nontriv"],
              "rule": "%d random configurations: direction uniform on the sphere / within 5 deg of a pole / +-89.999, +-89.9999999, +-90, 85+-1e-7 "
-                     "(ecliptical latitude capped at 89.999), epochs within 5 centuries of J2000 incl. the corners (20 centuries for identity and "
-                     "angle preservation), proper motion up to 10 arcsec/yr per axis, Newcomb epochs 1800-2100, inclinations 0.001..178.5; "
+                     "(ecliptical latitudes too), epochs within 5 centuries of J2000 incl. the corners (20 centuries for identity and "
+                     "angle preservation), proper motion up to 10 arcsec/yr per axis, Newcomb epochs 1800-2100, inclinations 0..180 incl. tiny, 90, retrograde; "
                      "non-trivial = configurations (each exercises ~45 calls)" % N,
              "samples": [{"input": "precession_equatorial(Epoch(J2000-5c), Epoch(J2000+5c), Angle(ra), Angle(89.9999999))",
                           "checked": "identity, there-and-back 1e-9, angle to a second star 1e-9, = ecliptical route 1e-4, proper motion = displaced start"}],
